@@ -265,7 +265,7 @@ func (f *vFix) vAddNode(name string, metaLen int) *nodeState {
 	m := f.m
 	st := NodeStateType(vRange(0, 3))
 	age := time.Duration(vRange(0, 1<<45))
-	ns := &nodeState{Node: Node{Name: name, Addr: net.IP(vBytes(4)), Port: vU16(), Meta: vBytes(metaLen),
+	ns := &nodeState{Node: Node{Name: name, Addr: net.IP(vBytes(vAddrLen())), Port: vU16(), Meta: vBytes(metaLen),
 		PMin: vU8(), PMax: vU8(), PCur: vU8(), DMin: vU8(), DMax: vU8(), DCur: vU8()},
 		Incarnation: vU32(), State: st, StateChange: vNow().Add(-age)}
 	ns.Node.State = st
@@ -364,3 +364,14 @@ func (f *vFix) vAddSelfNamed(name string) *nodeState {
 	m.incarnation.Store(1)
 	return ns
 }
+
+// vAddrLen: IPv4 in the quick tier; IPv4 or IPv6 (16 bytes) in the thorough tier.
+func vAddrLen() int {
+	if vTier() == 1 {
+		return []int{4, 16}[vPick(2)]
+	}
+	return 4
+}
+
+// vMetaLen: metadata of 0..1 bytes (quick) or 0..2 bytes (thorough).
+func vMetaLen() int { return vPick(2 + vTier()) }
